@@ -1634,8 +1634,18 @@ impl TInputProtocol for TCompactInputProtocol<&mut Bytes> {
 
     #[inline]
     fn read_bytes(&mut self) -> Result<Bytes, ThriftException> {
-        let size = self.read_varint::<u32>()?;
-        Ok(self.trans.split_to(size as usize))
+        let size = self.read_varint::<u32>()? as usize;
+        if size > self.trans.len() {
+            return Err(new_protocol_exception(
+                ProtocolExceptionKind::InvalidData,
+                format!(
+                    "length {} exceeds the {} remaining bytes",
+                    size,
+                    self.trans.len()
+                ),
+            ));
+        }
+        Ok(self.trans.split_to(size))
     }
 
     #[inline]
@@ -1665,6 +1675,16 @@ impl TInputProtocol for TCompactInputProtocol<&mut Bytes> {
     #[inline]
     fn read_faststr(&mut self) -> Result<FastStr, ThriftException> {
         let size = self.read_varint::<u32>()? as usize;
+        if size > self.trans.len() {
+            return Err(new_protocol_exception(
+                ProtocolExceptionKind::InvalidData,
+                format!(
+                    "length {} exceeds the {} remaining bytes",
+                    size,
+                    self.trans.len()
+                ),
+            ));
+        }
         let bytes = self.trans.split_to(size);
         unsafe { Ok(FastStr::from_bytes_unchecked(bytes)) }
     }
@@ -1749,6 +1769,16 @@ impl TInputProtocol for TCompactInputProtocol<&mut Bytes> {
     #[inline]
     fn read_bytes_vec(&mut self) -> Result<Vec<u8>, ThriftException> {
         let size = self.read_varint::<u32>()? as usize;
+        if size > self.trans.len() {
+            return Err(new_protocol_exception(
+                ProtocolExceptionKind::InvalidData,
+                format!(
+                    "length {} exceeds the {} remaining bytes",
+                    size,
+                    self.trans.len()
+                ),
+            ));
+        }
 
         Ok(self.trans.split_to(size).into())
     }
